@@ -69,4 +69,35 @@ Definition run_typed (inp : table * list str * pkt * list str) : sx :=
        SL (map SS ended');                                          (* ended requests still registered *)
        SZ 0 ].   (* builder calls that rewrote the caller's argument slice: the builders are functions of their arguments *)
 
-Definition run_C06 : sx -> sx := with_input dec_input run_typed.
+(* histories (routes registered while the router is in use): input = [table; hops], a hop is
+   [0; route] (registered from outside a dispatch) or [1; packet; routes its handler registers];
+   output = per dispatch [handler log; packets given to Sender.Send; SendRaw + SendIQ calls] *)
+Definition dec_hop (x : sx) : option hop :=
+  match x with
+  | SL [SZ 0; r] => do r' <- as_list dec_matcher r; Some (HAdd r')
+  | SL [SZ 1; p; ins] =>
+      do p' <- dec_pkt p; do i' <- as_list (as_list dec_matcher) ins; Some (HDispatch p' i')
+  | _ => None
+  end.
+
+Definition dec_hist (x : sx) : option (table * list hop) :=
+  match x with
+  | SL [t; h] =>
+      do t' <- as_list (as_list dec_matcher) t;
+      do h' <- as_list dec_hop h;
+      Some (t', h')
+  | _ => None
+  end.
+
+Definition run_hist_typed (inp : table * list hop) : sx :=
+  SL (map (fun ev =>
+             SL [ SL (map (fun i => SL [Snat i; SB true]) (handler_log ev));
+                  SL (map reply_sx (replies ev));
+                  SZ 0 ])
+          (run_hist (fst inp) (snd inp))).
+
+Definition run_C06 (x : sx) : sx :=
+  match dec_hist x with
+  | Some i => run_hist_typed i
+  | None => with_input dec_input run_typed x
+  end.
